@@ -710,13 +710,17 @@ def judge(prop, result, scen_by_id, tier, seed, replay_dir=None):
     known = load_known()
     lines = []
     nviol = 0
+    binding = []
     seen_known = set()
     other = {}
     by_scen = {}
     for v in result["viol"]:
         scen, mon, line, detail = v[0], v[1], v[2], v[3]
         if mon == "BINDING":
-            raise ToolError(f"binding broken in scenario {scen} at event {line}: the state rebuilt from the logged verbs differs from the archive on disk")
+            # the state rebuilt from the logged verbs differs from the archive on disk: the trace of that
+            # scenario is incomplete. A tool error -- unless violations were found anyway (see below)
+            binding.append((scen, line))
+            continue
         props = MONITOR_PROPS.get(mon, [])
         if prop not in props:
             other.setdefault(mon, 0)
@@ -751,6 +755,10 @@ def judge(prop, result, scen_by_id, tier, seed, replay_dir=None):
     for f in known["findings"]:
         if f["id"] in seen_known:
             lines.insert(0, f"KNOWN-FINDING: property={f['property']} {f['id']} {f['what']}")
+    if binding:
+        if nviol == 0:
+            raise ToolError(f"binding broken in scenario {binding[0][0]} at event {binding[0][1]}: the state rebuilt from the logged verbs differs from the archive on disk")
+        lines.append(f"[note] the trace of {len(binding)} scenario(s) was incomplete (state rebuilt from the logged verbs differs from the directory), e.g. {binding[0][0]}")
     return nviol, lines, other
 
 
